@@ -237,6 +237,7 @@ pub fn run(plan_path: &str) -> i32 {
         obs.push(json!({"limit": lim, "hr_when_asked_true": hr_t, "hr_when_asked_false": hr_f, "validators_accepting_probe": val, "comparators_matching_probe": cmp}));
     }
     let w = apache_avro::util::max_allocation_bytes(0);
+    let heavy = plan["heavy"].as_bool().unwrap_or(true);
     // ---------------------------------------------------------------- uniformity sweep of the limit in force
     let mut sweep = Vec::new();
     let sv = std::mem::size_of::<Value>();
@@ -266,7 +267,7 @@ pub fn run(plan_path: &str) -> i32 {
         sweep.push(json!({"guard": "big-decimal-inner", "declared": declared, "r": size_probe(&bigdec, &outer, false)}));
         }
         // container block size (the header's own strings must fit the limit)
-        if w >= 32 {
+        if w >= 32 && (heavy || w <= (64 << 20)) {
         let mut file = b"Obj\x01".to_vec();
         file.extend_from_slice(&[2, 22]);
         file.extend_from_slice(b"avro.schema");
